@@ -22,7 +22,7 @@ func realChecks(c *core.Ctx, b *Built, p *plan, rs []VsResult, fs *findings) err
 	for _, r := range rs {
 		first[r.ID] = r
 	}
-	out, err := RunReal(c, b.RealBin, RealJob{Cfgs: p.realCfgs, Iters: 3, Seed: c.Seed}, p.tag+"cross", 5*time.Minute)
+	out, err := RunReal(c, b.RealBin, RealJob{Cfgs: p.realCfgs, Iters: 3, Seed: c.Seed}, p.tag+"cross", 20*time.Minute)
 	if err != nil {
 		return err
 	}
@@ -33,6 +33,10 @@ func realChecks(c *core.Ctx, b *Built, p *plan, rs []VsResult, fs *findings) err
 	}
 	checked := 0
 	for _, r := range out.Results {
+		if r.Starved != "" {
+			noteStarved(b.RealBin, r, fs, "unrewritten code, real runtime")
+			continue
+		}
 		for _, f := range r.Failures {
 			fs.add(r.Cfg, f.Class+" (unrewritten code, real runtime)", f.Detail, map[string]interface{}{"cfg": r.Cfg, "where": "unrewritten generated code on the real Go runtime"})
 		}
@@ -59,7 +63,7 @@ func realChecks(c *core.Ctx, b *Built, p *plan, rs []VsResult, fs *findings) err
 			go func(i int) {
 				defer wg.Done()
 				outs[i], errs[i] = RunReal(c, b.RaceBin, RealJob{Cfgs: p.realCfgs, Seconds: p.stress, Seed: c.Seed*100 + int64(i), Jitter: true},
-					fmt.Sprintf("%srace%d", p.tag, i), time.Duration(p.stress*4+120)*time.Second)
+					fmt.Sprintf("%srace%d", p.tag, i), time.Duration(p.stress*4+900)*time.Second)
 			}(i)
 		}
 		wg.Wait()
@@ -75,6 +79,10 @@ func realChecks(c *core.Ctx, b *Built, p *plan, rs []VsResult, fs *findings) err
 					map[string]interface{}{"cfg": o.CrashAt, "where": "unrewritten generated code, go build -race, randomised stress", "stderr": o.Stderr})
 			}
 			for _, r := range o.Results {
+				if r.Starved != "" {
+					noteStarved(b.RaceBin, r, fs, "unrewritten code, real runtime, -race")
+					continue
+				}
 				for _, f := range r.Failures {
 					fs.add(r.Cfg, f.Class+" (unrewritten code, real runtime, -race)", f.Detail, map[string]interface{}{"cfg": r.Cfg, "where": "unrewritten generated code, go build -race, randomised stress"})
 				}
@@ -94,4 +102,64 @@ func cfgByID(p *plan, id string) obs.Cfg {
 		}
 	}
 	return obs.Cfg{Comb: "unknown"}
+}
+
+// A run the real-runtime driver could not judge in time (its goroutines were
+// not all blocked: starved machine or a spinning goroutine) is NOT a finding.
+// It is re-run alone at the end of the check with ten times the patience.
+type starvedRun struct {
+	bin, where string
+	res        RealResult
+	fs         *findings
+}
+
+var (
+	starvedMu   sync.Mutex
+	starvedRuns []starvedRun
+)
+
+func noteStarved(bin string, r RealResult, fs *findings, where string) {
+	starvedMu.Lock()
+	defer starvedMu.Unlock()
+	for _, s := range starvedRuns {
+		if s.bin == bin && s.res.ID == r.ID {
+			return
+		}
+	}
+	starvedRuns = append(starvedRuns, starvedRun{bin, where, r, fs})
+}
+
+// resolveStarved runs when nothing else of this check is running any more.
+func resolveStarved(c *core.Ctx) error {
+	starvedMu.Lock()
+	runs := starvedRuns
+	starvedRuns = nil
+	starvedMu.Unlock()
+	for i, s := range runs {
+		if i >= 8 {
+			return fmt.Errorf("%d configurations could not be judged on the real runtime in time (machine too loaded)", len(runs))
+		}
+		out, err := RunReal(c, s.bin, RealJob{Cfgs: []obs.Cfg{s.res.Cfg}, Iters: 1, Seed: c.Seed, LimitS: 100}, fmt.Sprintf("alone%d", i), 12*time.Minute)
+		if err != nil {
+			return err
+		}
+		if out.Crash != "" {
+			s.fs.add(s.res.Cfg, out.Crash+" ("+s.where+")", short(out.Stderr, 1500), map[string]interface{}{"cfg": s.res.Cfg, "where": s.where, "stderr": out.Stderr})
+			continue
+		}
+		for _, r := range out.Results {
+			if r.Starved != "" {
+				return fmt.Errorf("%s did not finish on the real runtime (%s) even alone with 10x the time limit, and its goroutines are not all blocked, so this is not a deadlock verdict: %s", r.ID, s.where, r.Starved)
+			}
+			for _, f := range r.Failures {
+				s.fs.add(r.Cfg, f.Class+" ("+s.where+")", f.Detail, map[string]interface{}{"cfg": r.Cfg, "where": s.where})
+			}
+			if len(r.Failures) == 0 {
+				c.Warn(fmt.Sprintf("%s (%s) was too slow to judge under load (%s); re-run alone it finished correctly", r.ID, s.where, short(s.res.Starved, 160)))
+			}
+		}
+		s.fs.report(c)
+	}
+	c.Set("real_runtime_starved_reruns", len(runs))
+	return nil
 }
